@@ -87,14 +87,14 @@ def dipole_for(rng, t, margin=0.05):
     q = tuple(rng.uniform(-1, 1) for _ in range(3))
     return p, q
 
-def fan(rng, n=None):
+def fan(rng, n=None, closed=None):
     """vertex V with n triangles (V,A_k,A_{k+1}) around it, not planar -> (V, [(A,B,rot)])"""
     n = n or rng.randint(3, 7)
     e1, e2, e3 = random_frame(rng)
     c = (rng.uniform(-1, 1), rng.uniform(-1, 1), rng.uniform(-1, 1))
     V = add(c, mul(rng.uniform(0.1, 0.5), e3))
     ring = []
-    closed = rng.random() < 0.7
+    if closed is None: closed = rng.random() < 0.7
     for k in range(n + (0 if closed else 1)):
         a = 2 * math.pi * k / (n + (0 if closed else 1)) + rng.uniform(-0.2, 0.2)
         r = rng.uniform(0.4, 1.5)
